@@ -154,12 +154,14 @@ let run_target (hd : string) (f : fmt option) (id : n) (target : string) (bytes 
   let fuel = nat_of_int (List.length bytes + 2) in
   let go : 'a. (Buffer.t -> 'a -> unit) -> (n -> 'a dec) -> unit = fun pr body ->
     match f with
-    | Some f -> show hd pr (run_flat (decode f body) bytes)
-    | None -> show_body hd pr (run_flat (body id) bytes) in
+    | Some f -> show hd pr (run_fast (decode f body) bytes)
+    | None -> show_body hd pr (run_fast (body id) bytes) in
   match target with
   | "any" -> go pr_aval (dec_any fuel)
   | "map" -> go pr_aval (dec_map fuel)
-  | "raw" -> go pr_raw (dec_raw fuel)
+  | "raw" -> (match f with
+              | Some f -> show hd pr_raw (decode_raw_fast f fuel bytes)   (* = run_flat (Decode f (dec_raw fuel)): decode_raw_fast_eq *)
+              | None -> go pr_raw (dec_raw fuel))
   | "dyn" -> go pr_dval (dec_dyn fuel)
   | "snbt" -> go pr_unit (dec_snbt fuel)
   | "skip" -> go pr_unit (dec_struct0 fuel)
